@@ -26,6 +26,7 @@ struct %(IT)s { struct %(M)s *m; unsigned long idx; int gen; };
 #define %(M)s__erase__1 vf_%(K)s_erase
 #define %(M)s__op_index__1 vf_%(K)s_index
 #define %(M)s__clear__0 vf_%(K)s_clear
+#define %(M)s__swap__1 vf_%(K)s_swap
 #define %(IT)s__op_arrow__0 vf_%(K)s_deref
 #define %(IT)s__op_deref__0 vf_%(K)s_deref
 #define %(IT)s__op_inc__0 vf_%(K)s_inc
@@ -33,11 +34,11 @@ struct %(IT)s { struct %(M)s *m; unsigned long idx; int gen; };
 #define ext_op_eq__std_Rb_tree_iterator_std_pair_%(K)s_std_promise_int_Self_ref_std_Rb_tree_iterator_std_pair_%(K)s_std_promise_int_Self_ref(a, b) ((a)->idx == (b)->idx)
 ''' % d
     code = r'''
-void vf_%(K)s_begin(struct %(IT)s *it, struct %(M)s *m) { NEED_LOCK("map.begin()"); it->m = m; it->idx = 0; it->gen = m->gen; }
+void vf_%(K)s_begin(struct %(IT)s *it, struct %(M)s *m) { NEED_LOCK_M(m, "map.begin()"); it->m = m; it->idx = 0; it->gen = m->gen; }
 _Bool vf_%(K)s_valid(struct %(IT)s *it) { return !(it->m->erased_any && it->gen <= it->m->le_gen && it->idx == it->m->le_idx); }
 struct %(P)s *vf_%(K)s_deref(struct %(IT)s *it)
 {
-  NEED_LOCK("access to a promise map element");
+  NEED_LOCK_M(it->m, "access to a promise map element");
   __CPROVER_assert(vf_%(K)s_valid(it), "[C18] an iterator to an erased map element is dereferenced");
   __CPROVER_assert(it->idx < it->m->size, "[C18] the end iterator of a promise map is dereferenced");
   if (it->m->has_f && it->idx == it->m->fpos) return &it->m->felem;
@@ -55,7 +56,7 @@ struct %(IT)s *vf_%(K)s_inc(struct %(IT)s *it)
 }
 void vf_%(K)s_find(struct %(IT)s *it, struct %(M)s *m, %(keyt)s *key)
 {
-  NEED_LOCK("map.find()");
+  NEED_LOCK_M(m, "map.find()");
   it->m = m; it->gen = m->gen;
   if (%(is_focus)s) { it->idx = m->has_f ? m->fpos : m->size; return; }
   it->idx = vf_nondet_ulong();
@@ -63,7 +64,7 @@ void vf_%(K)s_find(struct %(IT)s *it, struct %(M)s *m, %(keyt)s *key)
 }
 void vf_%(K)s_erase(struct %(IT)s *ret, struct %(M)s *m, struct %(IT)s *pos)
 {
-  NEED_LOCK("map.erase()");
+  NEED_LOCK_M(m, "map.erase()");
   __CPROVER_assert(vf_%(K)s_valid(pos) && pos->idx < m->size, "[C18] erase() of an invalid or end iterator");
   if (m->has_f && pos->idx == m->fpos) { vf_promise_dtor(&m->felem.second); m->has_f = 0; }
   else if (m->has_f && pos->idx < m->fpos) m->fpos = m->fpos - 1;
@@ -74,7 +75,7 @@ void vf_%(K)s_erase(struct %(IT)s *ret, struct %(M)s *m, struct %(IT)s *pos)
 }
 struct %(PR)s *vf_%(K)s_index(struct %(M)s *m, %(keyt)s *key)
 {
-  NEED_LOCK("map[]");
+  NEED_LOCK_M(m, "map[]");
   if (%(is_focus)s) {
     if (!m->has_f) {
       unsigned long pos = vf_nondet_ulong();
@@ -90,10 +91,16 @@ struct %(PR)s *vf_%(K)s_index(struct %(M)s *m, %(keyt)s *key)
 }
 void vf_%(K)s_clear(struct %(M)s *m)
 {
-  NEED_LOCK("map.clear()");
+  NEED_LOCK_M(m, "map.clear()");
   if (m->has_f) vf_promise_dtor(&m->felem.second);
   m->has_f = 0; m->size = 0; m->erased_any = 0;
   if (m->gen < 999) m->gen = m->gen + 1;
+}
+void vf_%(K)s_swap(struct %(M)s *a, struct %(M)s *b)
+{
+  NEED_LOCK_M(a, "map.swap()"); NEED_LOCK_M(b, "map.swap()");
+  struct %(M)s t = *a; *a = *b; *b = t;
+  _Bool u = a->used; a->used = b->used; b->used = u;      /* `used` tells the role of the member map, it does not travel */
 }
 void vf_%(K)s_map_dtor(struct %(M)s *m) { if (m->has_f) vf_promise_dtor(&m->felem.second); m->has_f = 0; m->size = 0; }
 ''' % d
@@ -123,7 +130,10 @@ struct %(FU)s { int ss; };
 GHOST = GHOST_BOUNDS + r'''
 int vf_fki, vf_fks;               /* focus keys (integer key, string key id) */
 struct %(DO)s *vf_DO;
-#define NEED_LOCK(what) __CPROVER_assert(vf_DO == 0 || vf_DO->promiseLock.excl_me, "[L1] " what " without holding promiseLock")
+/* only the four member maps are protected by promiseLock (a local map needs no lock) */
+#define IS_MEMBER_MAP(m) (vf_DO != 0 && ((void *)(m) == (void *)&vf_DO->promiseByInteger || (void *)(m) == (void *)&vf_DO->promiseByString || \
+                                         (void *)(m) == (void *)&vf_DO->usedPromiseByInteger || (void *)(m) == (void *)&vf_DO->usedPromiseByString))
+#define NEED_LOCK_M(m, what) __CPROVER_assert(!IS_MEMBER_MAP(m) || vf_DO->promiseLock.excl_me, "[L1] " what " without holding promiseLock")
 /* table of shared states: 1/2 = focus integer/string key (harness), 3/4 = behind non-focus pending/used entries, 5 = created by the verified call */
 struct vf_ss vf_sst[8];
 #define SS_OK(i) ((i) >= 0 && (i) < 8)
